@@ -18,7 +18,12 @@ META = {
 def run(R):
     tonic = R.crate('tonic')
     si = tonic.body('transport::server::Server::<L>::serve_internal::{closure#0}')
-    sc = tonic.body('transport::server::serve_connection::{closure#0}')
+    # the connection task: the coroutine, written in serve_connection or in an async helper it spawns, that drives the connection
+    sp0 = tonic.body('transport::server::serve_connection')
+    tasks = [c for c in family(tonic, sp0) if c.kind == 'coroutine' and c.calls(name='graceful_shutdown')]
+    if len(tasks) != 1:
+        raise CheckError('ANCHOR-MISSING: %d coroutines under serve_connection call graceful_shutdown (the connection task)' % len(tasks))
+    sc = tasks[0]
     R.saw(si, sc)
 
     # ---------------------------------------------------------------- R1 nothing accepted after the broadcast
@@ -136,11 +141,15 @@ def run(R):
         c = si.calls(name='serve_connection')
         if len(c) != 1:
             raise CheckError('ANCHOR-MISSING: serve_connection call in serve_internal (%d sites)' % len(c))
-        sg = tonic.sig('transport::server::serve_connection')
-        wpos = [i_ for i_, ty_ in enumerate(sg['inputs']) if 'watch::Receiver<()>' in ty_]
-        if len(wpos) != 1:
-            raise CheckError('UNRECOGNISED: serve_connection has %d parameters holding a watch::Receiver' % len(wpos))
-        w = strip_refs(si.origin(c[0][1]['args'][wpos[0]]))
+        # where the receiver enters serve_connection: a parameter, or a field of a parameter struct
+        wlocs = locs_of_type(tonic, sp0, r'watch::Receiver<\(\)>')
+        if len(wlocs) != 1:
+            raise CheckError('UNRECOGNISED: serve_connection has %d parameters / parameter fields holding a watch::Receiver' % len(wlocs))
+        via = loc_through_call(si, c[0][1], wlocs[0])
+        if not via or via[0] != 'term':
+            raise CheckError('UNRECOGNISED: the receiver handed to serve_connection is not built at the call site')
+        w = strip_refs(via[1])
+        wty = sp0.ty(wlocs[0][0]) if not wlocs[0][1] else [f_['ty'] for f_ in tonic.adt(re.sub(r'<.*$', '', re.sub(r"^&('\w+ )?(mut )?", '', sp0.ty(wlocs[0][0]))))['variants'][0]['fields'] if f_['n'] == wlocs[0][1][-1]][0]
         okt = is_call(w, name='then') and ('graceful' in show(w[2][0]) or (is_call(strip_refs(w[2][0]), name='is_some') and 'signal' in show(w[2][0])))
         R.check(okt, 'C13.R3', 'watcher=graceful.then(..)', site(si, c[0][0]), 'watcher argument = %s' % show(w)[:100])
         if okt:
@@ -152,7 +161,7 @@ def run(R):
                 cl = [(bb, t) for bb, t in cb.calls(name='clone')]
                 okc = len(cl) == 1 and 'watch::Receiver' in ((cl[0][1].get('self_ty') or '') + (cl[0][1].get('resolved') or '')) and cl[0][1]['dest']['l'] == 0
             R.check(okc, 'C13.R3', 'closure-clones-receiver', site(si, c[0][0]), 'the closure returns signal_rx.clone(): %r' % okc)
-        R.check('Option<tokio::sync::watch::Receiver<()>>' in sg['inputs'][wpos[0]], 'C13.R3', 'connection-takes-a-receiver', 'tonic/src/transport/server/mod.rs (serve_connection)', 'serve_connection watcher parameter type: %s' % sg['inputs'][wpos[0]])
+        R.check('Option<tokio::sync::watch::Receiver<()>>' in wty, 'C13.R3', 'connection-takes-a-receiver', 'tonic/src/transport/server/mod.rs (serve_connection)', 'serve_connection watcher parameter type: %s' % wty)
         subs = [short(bd.path) for bd in tonic.bodies if 'transport::server' in bd.path for bb, t in bd.calls(name='subscribe')]
         R.check(not subs, 'C13.R3', 'no-late-subscribe', '', 'watch::Sender::subscribe calls in transport::server: %r (a receiver subscribed inside the task misses a signal sent before its first poll and is not counted by closed())' % subs)
 
@@ -165,7 +174,8 @@ def run(R):
         upw = 'watcher' in sc.upvar_names()
         if fz:
             inner = strip_refs(sc.origin(fz[0][4][0]))
-            okm = is_call(inner, pat='Option', name='map') and is_call(strip_refs(inner[2][0]), name='as_mut') and 'watcher' in show(inner[2][0])
+            am = strip_refs(inner[2][0]) if is_call(inner, pat='Option', name='map') else None
+            okm = is_call(am, name='as_mut') and any('watch::Receiver' in g_ for g_ in (am[4].get('ga') or [])) and am[2] and strip_refs(am[2][0])[0] != 'call'
             R.check(okm, 'C13.R4', 'signal-borrows-receiver', site(sc, fz[0][0], fz[0][1]),
                     'Fuse.inner = %s; required watcher.as_mut().map(..): the task must keep owning the receiver while the connection is open (moving it into the signal future releases it when the signal fires)' % show(inner)[:110])
             if okm:
@@ -215,7 +225,7 @@ def run(R):
                 R.check(len(gss) == 1 and loops_back and not reaches_ret, 'C13.R4', '%s-arm:graceful_shutdown-and-continue' % label, site(sc, arm_of[nm]),
                         '%s arm: graceful_shutdown sites %d, continues the loop %r, can leave the loop without the connection completing %r' % (label, len(gss), loops_back, reaches_ret))
         for bb, t in gs:
-            R.check('conn' in show(sc.origin(t['args'][0])) or term_contains(sc.origin(t['args'][0]), lambda x: is_call(x, name='serve_connection')), 'C13.R4', 'graceful_shutdown-on-conn', site(sc, bb), 'receiver = %s' % show(sc.origin(t['args'][0]))[:80])
+            R.check(term_contains(sc.origin(t['args'][0]), lambda x: is_call(x, name='serve_connection')) or 'Connection' in (t.get('self_ty') or t.get('fn') or ''), 'C13.R4', 'graceful_shutdown-on-conn', site(sc, bb), 'receiver = %s' % show(sc.origin(t['args'][0]))[:80])
         # the receiver is dropped only after the loop
         dr = [(bb, t) for bb, t in sc.calls(pat='mem::drop') if any('watch::Receiver' in g for g in t.get('ga', []))]
         implicit = [bb for bb in sc.live_blocks() if sc.term(bb)['k'] == 'drop' and 'watch::Receiver' in sc.tystr(sc.term(bb)['ty'])]
